@@ -8,7 +8,8 @@ history: list / dict / set) and two iterators i, j kept across operations.
 One case per line: the history as Python steps (replayed by harness/c17.go as ONE program), the
 model's and the specification's observation after every step, tags.
 -/
-import GPy.C17.Spec
+import GPy.C17.ListOps
+import GPy.C17.Codec
 namespace GPy.C17
 
 /-! ### rendering -/
@@ -105,6 +106,29 @@ def Op.py (h : SHeap) (op : Op) : String :=
   | .lDelSlice v lo hi st => s!"del {n v}[{pySlice lo hi st}]"
   | .lSort v rev => if rev then s!"{n v}.sort(reverse=True)" else s!"{n v}.sort()"
   | .lForAppend v b => s!"for x in {n v}:\\n    if len({n v}) < {b}:\\n        {n v}.append(x)"
+  | .lInsert v i x => s!"{n v}.insert({i}, {pyVal x})"
+  | .lPop v i => (match i with | Option.none => s!"={n v}.pop()" | some i => s!"={n v}.pop({i})")
+  | .lRemove v x => s!"{n v}.remove({pyVal x})"
+  | .lReverse v => s!"{n v}.reverse()"
+  | .lClear v => s!"{n v}.clear()"
+  | .lCopyM u v => s!"{n u} = {n v}.copy()"
+  | .dUpdate v w => s!"{n v}.update({n w})"
+  | .dUpdatePairs v kvs => s!"{n v}.update([{pyKvs kvs (fun k x => s!"('{k}', {x})")}])"
+  | .dUpdateKw v kvs => s!"{n v}.update({pyKvs kvs (fun k x => s!"{k}={x}")})"
+  | .dPop v k d => (match d with
+    | Option.none => s!"={n v}.pop('{k}')"
+    | some x => s!"={n v}.pop('{k}', {pyVal x})")
+  | .dSetDefault v k d => (match d with
+    | Option.none => s!"={n v}.setdefault('{k}')"
+    | some x => s!"={n v}.setdefault('{k}', {pyVal x})")
+  | .dCopyM u v => s!"{n u} = {n v}.copy()"
+  | .dClear v => s!"{n v}.clear()"
+  | .sUpdate v w => s!"{n v}.update({n w})"
+  | .sUpdateSrc v src => s!"{n v}.update({src.py})"
+  | .sRemove v x => s!"{n v}.remove({pyVal x})"
+  | .sDiscard v x => s!"{n v}.discard({pyVal x})"
+  | .sClear v => s!"{n v}.clear()"
+  | .sCopyM u v => s!"{n u} = {n v}.copy()"
   | .len v => s!"=len({n v})"
   | .eq v w => s!"={n v} == {n w}"
   | .ne v w => s!"={n v} != {n w}"
@@ -149,7 +173,6 @@ def showRes (pre : SHeap) (op : Op) (r : Res) : String :=
 
 /-! ### running a history on both sides -/
 
-def modelPerm (rev : Bool) (xs : List Val) : List Val := (sortStable rev xs).1
 
 structure Trace where
   steps : List String := []
@@ -174,10 +197,14 @@ def stepFeats (h : MHeap) (op : Op) (r : Res) (h' : MHeap) : List String :=
   let mutated : Option Nat := match op with
     | .lAppend v _ | .lExtend v _ | .lExtendSrc v _ | .lExtendIter v _ | .lIAdd v _ | .lIAddSrc v _ | .lIMul v _
     | .lSetItem v _ _ | .lDelItem v _ | .lSetSlice v _ _ _ _ | .lSetSliceSrc v _ _ _ _ | .lDelSlice v _ _ _
-    | .lSort v _ | .lForAppend v _ | .dSet v _ _ | .dDel v _ | .sAdd v _ | .sIBin _ v _ => some v
+    | .lSort v _ | .lForAppend v _ | .dSet v _ _ | .dDel v _ | .sAdd v _ | .sIBin _ v _
+    | .lInsert v _ _ | .lPop v _ | .lRemove v _ | .lReverse v | .lClear v
+    | .dUpdate v _ | .dUpdatePairs v _ | .dUpdateKw v _ | .dPop v _ _ | .dSetDefault v _ _ | .dClear v
+    | .sUpdate v _ | .sUpdateSrc v _ | .sRemove v _ | .sDiscard v _ | .sClear v => some v
     | _ => Option.none
   let self : Bool := match op with
-    | .lExtend v w | .lIAdd v w | .lSetSlice v _ _ _ w | .sIBin _ v w | .eq v w | .ne v w | .lAdd _ v w | .sBin _ _ v w => h.id v == h.id w
+    | .lExtend v w | .lIAdd v w | .lSetSlice v _ _ _ w | .sIBin _ v w | .eq v w | .ne v w | .lAdd _ v w | .sBin _ _ v w
+    | .dUpdate v w | .sUpdate v w => h.id v == h.id w
     | _ => false
   let liveIter : Bool := match mutated with
     | some v => [3, 4].any (fun t => match h.obj t with
@@ -236,7 +263,8 @@ def emit (k : Kind) (ops : List Op) (extra : List String := []) : IO Unit := do
   let (cp0, _) := capsOf h0
   let nt := ["alias-mut", "self", "iter-mut", "sort-err", "for-mut", "err"].any (t.feats.contains ·)
   let tags := (if nt then ["nt"] else []) ++ [k.name] ++ t.feats.reverse ++ extra ++
-    (if k == .set && kfSetKeys ops then ["kf=C17-K01"] else if t.k02 then ["kf=C17-K02"] else if t.k03 then ["kf=C17-K03"] else [])
+    (if k == .set && kfSetKeys ops then ["kf=C17-K01"] else if t.k02 then ["kf=C17-K02"] else if t.k03 then ["kf=C17-K03"] else []) ++
+    ["h=" ++ encHistory k.name ops]
   IO.println (Case.line {
     input := " ;; ".intercalate (txt0 :: t.steps),
     modelV := " | ".intercalate (ob0 :: t.mobs),
@@ -266,27 +294,32 @@ def listAlphabet (small : Bool) : List Op :=
       [.lIMul v 2, .lIMul v 0, .lSort v false, .lSort v true, .len v, .iter 3 v, .lForAppend v 5,
        .lExtendSrc v (.tuple [.int 8, .int 9]), .lIAddSrc v (.str "xy"), .lIAddSrc v (.scalar (.int 5)), .contains v (.float 2)] ++
       sl.flatMap (fun (lo, hi, st) => [Op.lDelSlice v lo hi st, .lGetSlice 2 v lo hi st, .lSetSliceSrc v lo hi st (.tuple [.int 8, .int 9])]) ++
-      (if small then [] else [.lMul 2 v 2, .lOfIter v 3, .lExtendSrc v (.scalar .none), .lNew v [.int 3, .int 2]])) ++
+      [.lInsert v 1 (.int 6), .lInsert v (-1) (.str "a"), .lPop v Option.none, .lPop v (some 0), .lRemove v (.int 1), .lReverse v, .lClear v, .lCopyM 2 v] ++
+      (if small then [] else [.lMul 2 v 2, .lOfIter v 3, .lExtendSrc v (.scalar .none), .lNew v [.int 3, .int 2],
+                              .lInsert v 9 (.int 6), .lInsert v (-9) (.none), .lPop v (some 3), .lPop v (some (-1)), .lRemove v (.float 2), .lRemove v (.str "z")])) ++
   [.next 3, .drain 3, .iter 4 0, .next 4]
 
 def dictAlphabet (small : Bool) : List Op :=
   let vs := if small then [0, 1] else [0, 1, 2]
   let ks := if small then ["k", "m"] else keys
-  (vs.flatMap fun v => vs.flatMap fun w => [Op.alias v w, .dCopy v w, .eq v w] ++ (if small then [] else [.ne v w, .dComp v w (.int 0)])) ++
+  (vs.flatMap fun v => vs.flatMap fun w => [Op.alias v w, .dCopy v w, .eq v w, .dUpdate v w] ++ (if small then [] else [.ne v w, .dComp v w (.int 0), .dCopyM v w])) ++
   (vs.flatMap fun v =>
       ks.flatMap (fun k => [Op.dSet v k (.int 1), .dSet v k (.bool true), .dGet v k, .dDel v k, .dHas v k, .dGetM v k Option.none, .dGetM v k (some (.int 9))]) ++
-      [.len v, .iter 3 v, .dKeys v 0, .dKeys v 1, .dNew v [("k", .int 1), ("m", .float 2)], .dOfPairs v [("p", .str "a"), ("p", .int 2)], .dOfKw v [("q", .none)]]) ++
+      (if small then ["k", "p"] else ks).flatMap (fun k => [Op.dPop v k Option.none, .dPop v k (some (.int 9)), .dSetDefault v k Option.none, .dSetDefault v k (some (.int 9))]) ++
+      [.len v, .iter 3 v, .dKeys v 0, .dKeys v 1, .dNew v [("k", .int 1), ("m", .float 2)], .dOfPairs v [("p", .str "a"), ("p", .int 2)], .dOfKw v [("q", .none)],
+       .dUpdatePairs v [("p", .str "a"), ("k", .int 2)], .dUpdateKw v [("q", .int 3)], .dClear v]) ++
   [.next 3, .drain 3]
 
 def setAlphabet (small : Bool) : List Op :=
   let vs := if small then [0, 1] else [0, 1, 2]
   let xs : List Val := if small then [.int 1, .str "a"] else [.int 1, .str "a", .int 2, .none]
   (vs.flatMap fun v => vs.flatMap fun w =>
-      [Op.alias v w, .sCopy v w, .eq v w, .sIBin .or v w, .sIBin .sub v w, .sBin .and 2 v w, .sBin .xor 2 v w] ++
-      (if small then [] else [.ne v w, .sComp v w, .sIBin .and v w, .sIBin .xor v w, .sBin .or 2 v w, .sBin .sub 2 v w])) ++
+      [Op.alias v w, .sCopy v w, .eq v w, .sIBin .or v w, .sIBin .sub v w, .sBin .and 2 v w, .sBin .xor 2 v w, .sUpdate v w] ++
+      (if small then [] else [.ne v w, .sComp v w, .sIBin .and v w, .sIBin .xor v w, .sBin .or 2 v w, .sBin .sub 2 v w, .sCopyM v w])) ++
   (vs.flatMap fun v =>
-      xs.flatMap (fun x => [Op.sAdd v x, .contains v x]) ++
-      [.len v, .iter 3 v, .sNew v [.int 1, .str "a"], .sEmpty v, .sOfSrc v (.tuple [.int 2, .int 2, .str "b"]), .sOfSrc v (.str "aba")]) ++
+      xs.flatMap (fun x => [Op.sAdd v x, .contains v x, .sRemove v x, .sDiscard v x]) ++
+      [.len v, .iter 3 v, .sNew v [.int 1, .str "a"], .sEmpty v, .sOfSrc v (.tuple [.int 2, .int 2, .str "b"]), .sOfSrc v (.str "aba"),
+       .sUpdateSrc v (.tuple [.int 2, .str "a"]), .sUpdateSrc v (.str "ab"), .sUpdateSrc v (.scalar (.int 3)), .sClear v]) ++
   [.next 3, .drain 3]
 
 def prefixOf : Kind → List Op
@@ -301,7 +334,8 @@ def alphabetOf (k : Kind) (small : Bool) : List Op :=
 /-- C17-K01 witnesses: sets over 1 / True / 1.0 -/
 def k01Alphabet : List Op :=
   [.sNew 0 [.int 1, .bool true, .float 2], .sAdd 0 (.bool true), .sAdd 0 (.float 2), .sAdd 0 (.int 1), .len 0,
-   .contains 0 (.bool true), .sNew 1 [.bool true], .sIBin .and 0 1, .sIBin .sub 0 1, .sBin .xor 2 0 1, .eq 0 1, .sOfSrc 0 (.tuple [.int 0, .bool false])]
+   .contains 0 (.bool true), .sNew 1 [.bool true], .sIBin .and 0 1, .sIBin .sub 0 1, .sBin .xor 2 0 1, .eq 0 1, .sOfSrc 0 (.tuple [.int 0, .bool false]),
+   .sRemove 0 (.bool true), .sDiscard 0 (.float 2), .sUpdateSrc 0 (.tuple [.bool true, .float 2]), .sUpdate 0 1]
 
 def exhaustive (tier : String) : IO Unit := do
   for k in [Kind.list, .dict, .set] do
@@ -316,8 +350,9 @@ def exhaustive (tier : String) : IO Unit := do
       for o2 in l2 do
         emit k (pre ++ [o1, o2]) ["len2"]
     if tier == "thorough" then
-      -- lists: every second operation of the small alphabet (≈44³); dicts and sets: the small alphabet
-      let l3 := if k == .list then (small.zipIdx.filter (fun p => p.2 % 2 == 0)).map (·.1) else small
+      -- lists: every second operation of the small alphabet (≈52³); dicts and sets: two of every three (≈55³, ≈47³)
+      let l3 := if k == .list then (small.zipIdx.filter (fun p => p.2 % 2 == 0)).map (·.1)
+                else (small.zipIdx.filter (fun p => p.2 % 3 != 2)).map (·.1)
       for o1 in l3 do
         for o2 in l3 do
           for o3 in l3 do
@@ -380,7 +415,7 @@ def rndListOp (r : Rng) (h : MHeap) : Rng × Op :=
   let (r, st0) := r.nat 8
   let st : Option Int := [Option.none, Option.none, Option.none, some 1, some 2, some (-1), some (-2), some 0].getD st0 Option.none
   let (r, src) := rndSrc r true
-  let (r, c) := r.nat 40
+  let (r, c) := r.nat 52
   let big := n > 12 || lenOf h w > 12
   let op : Op := match c with
     | 0 | 1 => .alias v w
@@ -413,6 +448,14 @@ def rndListOp (r : Rng) (h : MHeap) : Rng × Op :=
     | 35 => .contains v x
     | 36 | 37 => .iter t v
     | 38 => .next t
+    | 39 => .drain t
+    | 40 | 41 => .lInsert v i x
+    | 42 | 43 => .lPop v (if i0 % 3 == 0 then Option.none else some i)
+    | 44 | 45 => .lRemove v x
+    | 46 | 47 => .lReverse v
+    | 48 => .lClear v
+    | 49 => .lCopyM v w
+    | 50 => .iter t v
     | _ => .drain t
   (r, op)
 
@@ -435,9 +478,16 @@ def rndDictOp (r : Rng) (_h : MHeap) : Rng × Op :=
   let (r, x) := rndVal r true
   let (r, k) := r.pick #["k", "m", "p", "q"]
   let (r, kvs) := rndKvs r
-  let (r, c) := r.nat 24
+  let (r, c) := r.nat 34
   let op : Op := match c with
     | 0 | 1 => .alias v w
+    | 24 | 25 => .dUpdate v w
+    | 26 => .dUpdatePairs v kvs
+    | 27 => .dUpdateKw v (dictOfList kvs)
+    | 28 | 29 => .dPop v k (if v == 0 then Option.none else some x)
+    | 30 | 31 => .dSetDefault v k (if w == 0 then Option.none else some x)
+    | 32 => .dCopyM v w
+    | 33 => .dClear v
     | 2 => .dCopy v w
     | 3 => .dNew v kvs
     | 4 => .dOfPairs v kvs
@@ -468,9 +518,15 @@ def rndSetOp (wide : Bool) (r : Rng) (_h : MHeap) : Rng × Op :=
   let (r, n) := r.nat 3
   let (r, xs) := rndVals r wide (n + 1)
   let (r, o) := r.pick #[SetOp.and, .or, .sub, .xor]
-  let (r, c) := r.nat 22
+  let (r, c) := r.nat 31
   let op : Op := match c with
     | 0 | 1 => .alias v w
+    | 22 | 23 => .sUpdate v w
+    | 24 => .sUpdateSrc v (.tuple xs)
+    | 25 | 26 => .sRemove v x
+    | 27 | 28 => .sDiscard v x
+    | 29 => .sClear v
+    | 30 => .sCopyM v w
     | 2 => .sCopy v w
     | 3 => .sNew v xs
     | 4 => .sEmpty v
@@ -512,7 +568,25 @@ def seeded (count : Nat) (seed : Nat) : IO Unit := do
     r := r'
     emit k ops [s!"rnd{ops.length}"]
 
+/-- `eval` mode: stdin carries one encoded history per line (the `h=` tag of a case, possibly with
+operations removed by the shrinker); each is re-run through model and specification and printed as a
+case line (a line that does not decode prints `UNDECODABLE`) -/
+partial def evalLoop (inp : IO.FS.Stream) : IO Unit := do
+  let line ← inp.getLine
+  if line == "" then return
+  let l := line.trimRight
+  if l != "" then
+    match decHistory l with
+    | some (kind, ops) =>
+      let k := if kind == "dict" then Kind.dict else if kind == "set" then Kind.set else Kind.list
+      emit k ops ["eval"]
+    | Option.none => IO.println ("UNDECODABLE\t\t\t\t")
+  evalLoop inp
+
 def genMain (tier : String) (seed : Nat) : IO Unit := do
+  if tier == "eval" then
+    evalLoop (← IO.getStdin)
+    return
   exhaustive tier
   seeded (if tier == "thorough" then 60000 else 6000) seed
 
